@@ -507,9 +507,11 @@ class Tr:
 
     def self_call(self, name, call, env):
         """self.<name>(...)  ->  (effects of the arguments, term, monadic?)"""
+        odefs = {}
         if name in ORACLES:
-            coq, monadic, needs_c, params = ORACLES[name]
-            types = [None] * len(params)
+            coq, monadic, needs_c, params = ORACLES[name][:4]
+            odefs = ORACLES[name][4] if len(ORACLES[name]) > 4 else {}       # parameter -> Coq term used when the argument is omitted
+            types = ORACLES[name][5] if len(ORACLES[name]) > 5 else [None] * len(params)
             defaults = {}
         elif name in METHODS:
             kind, sig, _ = METHODS[name]
@@ -551,6 +553,9 @@ class Tr:
         effs, ts = [], []
         for p, ty in zip(params, types):
             a = given.get(p, defaults.get(p))
+            if a is None and p in odefs:
+                ts.append(odefs[p])
+                continue
             if a is None:
                 raise Unsupported(f'missing argument {p} of {name}')
             eff, t = self.coerce(a, ty, env)
@@ -574,6 +579,9 @@ class Tr:
                 return eff, f'(Some {t})'
             eff, t = self.E(a, env)
             return eff, f'(as_opt {t})'
+        if ty == 'list (option Q)' and not isinstance(a, (ast.List, ast.Tuple)):
+            eff, t = self.E(a, env)
+            return eff, f'(as_optlist {t})'
         if ty.startswith('list (') and isinstance(a, (ast.List, ast.Tuple)):
             inner = ty[len('list ('):-1]
             effs, ts = [], []
@@ -805,7 +813,9 @@ class Tr:
         # carried through the iterations: names (re)bound in the body that were already bound before the loop
         before = set(env.params) | {n.id for n in ast.walk(env.fundef) if isinstance(n, ast.Name) and isinstance(n.ctx, ast.Store)
                                     and n.lineno < s.lineno}
-        carried = [a for a in assigned if a not in targets and a in before]
+        # the target of a nested loop is bound by that loop before it is used: not a value carried through the iterations
+        nested_targets = {n.id for b in s.body for st in ast.walk(b) if isinstance(st, ast.For) for n in ast.walk(st.target) if isinstance(n, ast.Name)}
+        carried = [a for a in assigned if a not in targets and a in before and a not in nested_targets]
         has_break = any(isinstance(st, ast.Break) for st in ast.walk(ast.Module(body=s.body, type_ignores=[])))
         names = [cname(a) for a in carried] + (['brk__'] if has_break else [])
         cpat = '_' if not names else ("'(" + ', '.join(names) + ')' if len(names) > 1 else names[0])
@@ -1877,6 +1887,110 @@ def translate_views(src_dir: str) -> str:
         METHODS, CFG_ATTRS, STATE_ATTRS, ORACLES, CFG_TYPE, LOCAL_ELT, EXTRA_PARAMS, MONAD, EXPR_HOOKS, STMT_SKIP, RECEIVERS, STMT_HOOKS = saved
     return ''.join(out)
 
+# ---- Marker.cross / ruler / meander / ablation / box (C14): which start / linear / end calls a figure is made of
+def _h_mk(tr, e, env):
+    d = dump(e)
+    if isinstance(e, ast.Call) and isinstance(e.func, ast.Attribute) and isinstance(e.func.value, ast.Name) and e.func.value.id in ('np', 'math'):
+        f, a = e.func.attr, e.args
+        mod = e.func.value.id
+        if e.keywords:
+            raise Unsupported(f'numpy call with keywords: {d[:120]}')
+        if mod == 'np' and f == 'unique' and len(a) == 1:
+            eff, t = tr.E(a[0], env)
+            return eff, f'(np_unique {t})'
+        if mod == 'np' and f in ('asarray', 'array') and len(a) == 1:
+            return tr.E(a[0], env)
+        if mod == 'np' and f == 'repeat' and len(a) == 2:
+            e1, t1 = tr.E(a[0], env)
+            e2, t2 = tr.E(a[1], env)
+            return e1 + e2, f'(np_repeat {t1} {t2})'
+        if mod == 'np' and f == 'add' and len(a) == 2 and isinstance(a[1], ast.List) and len(a[1].elts) == 3:
+            e1, t1 = tr.E(a[0], env)
+            effs, ts = [], []
+            for x in a[1].elts:
+                eff, t = tr.coerce(x, 'Q', env)
+                effs += eff
+                ts.append(f'(to_float {t})')
+            return e1 + effs, f'(np_add_rows {t1} [{"; ".join(ts)}])'
+        if mod == 'np' and f == 'sign' and len(a) == 1:
+            eff, t = tr.E(a[0], env)
+            return eff, f'(np_sign {t})'
+        if mod == 'np' and f == 'abs' and len(a) == 1:
+            eff, t = tr.E(a[0], env)
+            return eff, f'(Qabs {t})'
+        if mod == 'math' and f == 'floor' and len(a) == 1:
+            eff, t = tr.E(a[0], env)
+            return eff, f'(math_floor {t})'
+        raise Unsupported(f'numpy / math call outside the subset: {d[:120]}')
+    if d == "Call(func=Name(id='next'), args=[Name(id='s')], keywords=[])":
+        v = env.fresh('sgn')
+        return [(v, 'sign_next')], v
+    if isinstance(e, ast.List) and any(isinstance(x, ast.Starred) for x in e.elts):
+        # [*init_pos, self.depth]
+        if len(e.elts) == 2 and isinstance(e.elts[0], ast.Starred) and isinstance(e.elts[0].value, ast.Name):
+            eff, t = tr.E(e.elts[1], env)
+            return eff, f'({cname(e.elts[0].value.id)} ++ [{t}])%list'
+        raise Unsupported('starred list display')
+    if isinstance(e, ast.List) and e.elts and all(isinstance(x, ast.Constant) and isinstance(x.value, int) and not isinstance(x.value, bool) for x in e.elts):
+        return [], '[' + '; '.join(f'({x.value})%Z' for x in e.elts) + ']'      # [2, 3]: a list of ints
+    return None
+
+
+def _s_mk(tr, s, rest, env, tail):
+    d = dump(s)
+    if d == "Assign(targets=[Name(id='s')], value=Call(func=Name(id='sign'), args=[], keywords=[]))":
+        return f'sign_new ;;; {tr.T(rest, env, tail)}'
+    if (isinstance(s, ast.Assign) and len(s.targets) == 1 and isinstance(s.targets[0], ast.Tuple) and len(s.targets[0].elts) == 3
+            and isinstance(s.targets[0].elts[2], ast.Starred) and isinstance(s.value, ast.Name)
+            and all(isinstance(x, ast.Name) for x in s.targets[0].elts[:2])):
+        a, b = (cname(x.id) for x in s.targets[0].elts[:2])          # xi, yi, *_ = seq
+        return f'match {cname(s.value.id)} with {a} :: {b} :: _ => {tr.T(rest, env, tail)} | _ => raise EValue end'
+    if (isinstance(s, ast.Assign) and len(s.targets) == 1 and isinstance(s.targets[0], ast.Subscript) and isinstance(s.targets[0].value, ast.Name)
+            and isinstance(s.targets[0].slice, ast.Constant) and s.targets[0].slice.value == 0):
+        n = cname(s.targets[0].value.id)                               # arr[0] = v
+        eff, t = tr.E(s.value, env)
+        return tr.wrap(eff, f'{n} <- set_first (to_float {t}) {n} ;; {tr.T(rest, env, tail)}')
+    if isinstance(s, ast.Return) and (s.value is None or (isinstance(s.value, ast.Constant) and s.value.value is None)):
+        return 'ret tt'
+    return None
+
+
+_MK_ORACLES = {
+    'start': ('lp_start', True, True, ['init_pos', 'speed_pos'], {'speed_pos': ''}, ['list (Q)', None]),
+    'linear': ('lp_linear', True, True, ['increment', 'mode', 'shutter', 'speed'], {'mode': '"INC"', 'shutter': '(1)%Z', 'speed': 'None'},
+               ['list (option Q)', 'string', 'Z', 'option Q']),
+    'end': ('lp_end', True, True, [], {}, []),
+}
+
+
+def translate_marker(src_dir: str) -> str:
+    global METHODS, CFG_ATTRS, STATE_ATTRS, ORACLES, CFG_TYPE, LOCAL_ELT, EXTRA_PARAMS, MONAD, EXPR_HOOKS, STMT_SKIP, RECEIVERS, STMT_HOOKS
+    saved = (METHODS, CFG_ATTRS, STATE_ATTRS, ORACLES, CFG_TYPE, LOCAL_ELT, EXTRA_PARAMS, MONAD, EXPR_HOOKS, STMT_SKIP, RECEIVERS, STMT_HOOKS)
+    out = [PURE_PREAMBLE % ('marker.py', ' Path.Laser Path.Marker', 'MkState')]
+    try:
+        mod = ast.parse(pathlib.Path(src_dir, 'marker.py').read_text())
+        cls = [n for n in mod.body if isinstance(n, ast.ClassDef) and n.name == 'Marker']
+        if len(cls) != 1:
+            raise Unsupported('class Marker not found')
+        METHODS = {
+            'cross': ('method', [('position', 'list Q'), ('lx', 'option Q'), ('ly', 'option Q')], 'unit'),
+            'ruler': ('method', [('y_ticks', 'option (list Q)'), ('lx', 'option Q'), ('lx2', 'option Q'), ('x_init', 'option Q')], 'unit'),
+            'meander': ('method', [('init_pos', 'list Q'), ('final_pos', 'list Q'), ('width', 'Q'), ('delta', 'Q'), ('orientation', 'string')], 'unit'),
+            'ablation': ('method', [('points', 'list (list Q)'), ('shift', 'option Q')], 'unit'),
+            'box': ('method', [('lower_left_corner', 'list Q'), ('width', 'Q'), ('height', 'Q')], 'unit'),
+        }
+        CFG_ATTRS, STATE_ATTRS = {'depth', 'lx', 'ly', 'x_init'}, {}
+        ORACLES = dict(_MK_ORACLES)
+        CFG_TYPE, LOCAL_ELT, EXTRA_PARAMS, MONAD = 'mk_cfg', {}, '', 'MM'
+        EXPR_HOOKS, STMT_SKIP, RECEIVERS, STMT_HOOKS = [_h_mk], [], {'self'}, [_s_mk]
+        tr = Tr(cls[0])
+        out.append('\n'.join(f'Notation cfg_{a} := mk_{a}.' for a in sorted(CFG_ATTRS)) + '\n\n')
+        for name in ('cross', 'ruler', 'meander', 'ablation', 'box'):       # box calls ablation
+            out.append(tr.method(name) + '\n')
+    finally:
+        METHODS, CFG_ATTRS, STATE_ATTRS, ORACLES, CFG_TYPE, LOCAL_ELT, EXTRA_PARAMS, MONAD, EXPR_HOOKS, STMT_SKIP, RECEIVERS, STMT_HOOKS = saved
+    return ''.join(out)
+
 
 def main(argv):
     """py2coq.py <dir of femto sources> <output dir> <group>...   groups: pgm (PgmSrc.v), SrcLp.v, SrcNw.v, SrcTc.v, SrcTr.v"""
@@ -1894,6 +2008,8 @@ def main(argv):
                 name, text = g, translate_append_extend(str(src_dir))
             elif g == 'SrcUf.v':
                 name, text = g, translate_views(str(src_dir))
+            elif g == 'SrcMk.v':
+                name, text = g, translate_marker(str(src_dir))
             elif g == 'SrcSs.v':
                 name, text = g, translate_sheet(str(src_dir))
             elif g == 'SrcTn.v':
